@@ -34,6 +34,8 @@ ALPHABET = [
     "accessors",
     # replacement that changes only the extended (non-wire) fields of an input: recorded satoshis + locking script
     "set_input_ext",
+    # the input object is taken out of the transaction, edited through ITS OWN setters and put back (object-level caches travel with it)
+    "edit_input_vout", "edit_input_seq",
 ]
 FILLERS = {"sh41", "sh42", "shc1", "sh43", "hi41"}
 PROBES = [
@@ -150,6 +152,19 @@ def step_of(sym, pos, model, r=None):
         return {"op": "clone"}
     if sym == "accessors":
         return {"op": "accessors"}
+    if sym in ("edit_input_vout", "edit_input_seq"):
+        if n_in == 0:
+            return None
+        at = pick(n_in)
+        i = dict(model.ins[at])
+        if sym == "edit_input_vout":
+            i["vout"] = (i["vout"] + 7 + pos) & 0xFFFFFFFF
+            st_ = {"op": "edit_input", "i": at, "field": "vout", "v": i["vout"]}
+        else:
+            i["seq"] = (i["seq"] + 0x00010001 + pos) & 0xFFFFFFFF
+            st_ = {"op": "edit_input", "i": at, "field": "seq", "v": i["seq"]}
+        model.ins[at] = i
+        return st_
     if sym == "set_input_ext":
         if n_in == 0:
             return None
